@@ -53,6 +53,11 @@ impl DataFragSubmessage {
             let fragment_size = u16::try_read_from_bytes(&mut slice, endianness)?;
             let data_size = u32::try_read_from_bytes(&mut slice, endianness)?;
 
+            // A fragment size of zero is invalid and would make the reassembly divide by zero
+            if fragment_size == 0 {
+                return Err(RtpsMessageError::InvalidData);
+            }
+
             let end_position = if submessage_header.submessage_length() == 0 {
                 data.len()
             } else {
